@@ -196,7 +196,7 @@ def afterC (code : Array Instr) (ext : Nat → ExtRec) (fuel : Nat) : Nat → St
 
 /-- an outcome that is an answer of the real `Next`: a value, an error, or `(nil, false)` —
     not a Go panic, not a gap of the model, not the model's loop bound -/
-def Outcome.proper : Outcome → Bool
+def _root_.Gojq.VM.Outcome.proper : Outcome → Bool
   | .value _ | .error _ | .done => true
   | _ => false
 
